@@ -375,6 +375,55 @@ Proof.
 Qed.
 Print Assumptions C17_policy_fresh_start.
 
+(* The same exactness on the TIMED machine — the function suite policy
+   (run_policy) evaluates against the real plugin and MemoryCache.  After any
+   timed history evs1, an opening response of s that meets the conditions and
+   finds nothing (no entry in the cache map, or its ttl lapsed) starts a call;
+   if the continuation evs2 is undisturbed AS THE CLOCK AND THE SLEEPERS MAKE IT
+   (Spec.tg_from: every later response of s is non-opening, meets the
+   conditions and arrives before the ttl of the entry lapses, t_vis; no TFire
+   releases a sleeper of s while the call is open; clock movements, responses
+   and sleepers of other sequences arbitrary) the retries asked are EXACTLY
+   min(number of its responses, max(attempts, 0)).  The hypothesis is decidable
+   (a run of the timed machine) and cannot be dropped: see the example below
+   (ttl lapse; negative cool-down = ttl lapsed when stored). *)
+Theorem C17_policy_timed_fresh_start_exact : forall c t0 evs1 evs2 s status,
+  let t1 := fst (trun c t0 evs1) in
+  in_ranges (pRanges c) status = true ->
+  (t_vis t1 s = false \/ get Z.eqb (tStore t1) s = None) ->
+  forallb (calm c s) (tg_from c (fst (tstep c t1 (TResp s true status))) evs2) = true ->
+  seg_retries s (snd (trun c t0 (evs1 ++ TResp s true status :: evs2))) =
+    Z.min (1 + tcount_resp s evs2) (Z.max 0 (pAttempts c)).
+Proof. exact timed_exact_run. Qed.
+Print Assumptions C17_policy_timed_fresh_start_exact.
+
+(* hypotheses satisfiable with the clock moving and a sleeper (of sequence 2)
+   firing inside the call: budget 3, three responses after the opening one =>
+   retry, retry, retry, NoOp.  Not undisturbed: 37 s without a response lets
+   the ttl (5 + 30 + 1 s) of the opening entry lapse => the next response finds
+   nothing and is answered NoOp (fewer retries, never more); a negative
+   cool-down below -31 s stores an entry whose ttl has already lapsed. *)
+Example C17_policy_timed_fresh_example :
+  let c := {| pAttempts := 3; pCooldown := 5; pMult := 2; pRanges := [(500, 599)] |} in
+  let evs1 := [TResp 2 true 500; TAdvance (5 * second); TResp 1 false 404] in
+  let evs2 := [TAdvance (10 * second); TResp 1 false 503; TAdvance (22 * second);
+               TFire; TResp 1 false 500; TResp 1 false 500] in
+  let t1 := fst (trun c 0 evs1) in
+  get Z.eqb (tStore t1) 1 = None /\
+  forallb (calm c 1) (tg_from c (fst (tstep c t1 (TResp 1 true 500))) evs2) = true /\
+  In (GDrop 2) (tg_from c (fst (tstep c t1 (TResp 1 true 500))) evs2) /\
+  map (fun x => pout_code (snd x)) (snd (trun c 0 (evs1 ++ TResp 1 true 500 :: evs2)))
+    = [0; 1; 0; 0; 0; 1] /\
+  forallb (calm c 1) (tg_from c (fst (tstep c t1 (TResp 1 true 500)))
+                        [TAdvance (37 * second); TResp 1 false 500]) = false /\
+  map (fun x => pout_code (snd x))
+      (snd (trun c 0 (evs1 ++ TResp 1 true 500 :: [TAdvance (37 * second); TResp 1 false 500])))
+    = [0; 1; 0; 1] /\
+  map (fun x => pout_code (snd x))
+      (snd (trun {| pAttempts := 3; pCooldown := -40; pMult := 1; pRanges := [(500, 599)] |} 0
+                 [TResp 1 true 500; TResp 1 false 500])) = [0; 1].
+Proof. vm_compute. repeat split; try reflexivity. right; left; reflexivity. Qed.
+
 (* hypotheses satisfiable: budget 2 used up by sequence 1 (interleaved with
    sequence 2), later responses NoOp, reopened: again exactly 2 retries.
    NOT covered by "fresh": an opening response that still FINDS an entry (the
